@@ -1907,7 +1907,7 @@ fn pm1lists(rng: &mut Rng, iters: u64) {
             if p > (1 << 18) && is_prime(p) { return p; }
         }
     };
-    for _ in 0..(if iters < 1000 { 2 } else { 10 }) { pm1lists_blocks(rng); }
+    for _ in 0..(if iters < 1000 { 12 } else { 60 }) { pm1lists_blocks(rng); }
     let rounds = if iters < 1000 { 6 } else if iters < 50000 { 30 } else { 200 };
     for it in 0..rounds {
         let (b1, b2) = [(600u64, 40e3f64), (16384, 450e3), (1000, 980e3), (300, 100e3)][(it % 4) as usize];
@@ -1944,9 +1944,18 @@ fn pm1lists_blocks(rng: &mut Rng) {
     fn is_prime(n: u64) -> bool { yamaquasi::isprime64(n) }
     // p1 - 1 smooth below 2^12 (first block), about 50 bits
     let p1 = loop {
-        let mut m = 2u64;
-        while m < (1 << 48) { m *= [2u64, 3, 5, 7, 11, 13, 17, 19, 23, 29, 31, 3137][(rng.next() % 12) as usize]; }
-        if m < (1 << 58) && is_prime(m + 1) { break m + 1; }
+        // every prime power dividing p1 - 1 stays below 4096 (stage 1 takes prime powers up to B1)
+        let ps = [2u64, 3, 5, 7, 11, 13, 17, 19, 23, 29, 31, 37, 41, 43, 3137];
+        let caps = [11u32, 7, 5, 4, 3, 3, 2, 2, 2, 2, 2, 2, 2, 2, 1];
+        let mut used = [0u32; 15];
+        let mut m = 2u64; used[0] = 1;
+        let mut tries = 0;
+        while m < (1 << 48) && tries < 400 {
+            tries += 1;
+            let i = (rng.next() % 15) as usize;
+            if used[i] < caps[i] { used[i] += 1; m *= ps[i]; }
+        }
+        if m >= (1 << 48) && m < (1 << 60) && is_prime(m + 1) { break m + 1; }
     };
     // p2 - 1 = 2 * small * l with l a prime in (70000, 190000): found in a later block, about 40 bits
     let p2 = loop {
